@@ -88,7 +88,8 @@ def scale_energy(spec, s):
 
 
 def case_strategy(tier):
-    base = S.system_spec(big=False, allow_ms=True)
+    # up to four site types (a split of a three-type system also has four)
+    base = S.system_spec(big=False, allow_ms=True, max_types=4)
     return st.tuples(base, st.sampled_from(['perm', 'split', 'diblock', 'diblock', 'scale', 'perm', 'split', 'diblock']), st.integers(0, 10 ** 6), specs.fl(0.05, 0.95, 3),
                      specs.logfloat(-1.3, 1.3, 4), specs.array_desc(6, (-2, 0)), specs.logfloat(-3, 0.3, 3)).map(
         lambda t: {'base': t[0], 'T': t[1], 'pick': t[2], 'f': t[3], 's': t[4], 'x': t[5], 'amp': t[6]})
@@ -122,13 +123,13 @@ def transform(case):
         for (i, j) in S.pair_indices(n):
             if a in (i, j) and base['closure'][S.key(i, j)][0] == 'HNC':
                 base['closure'][S.key(i, j)][0] = 'PY'
-        if n < 3:
+        if n < 4:
             new, idx = split_diblock(base, a)
             return base, new, idx, 1.0, 'split-diblock'
         kind = 'scale'
     if kind == 'split':
         singles = [i for i in range(n) if base['omega'][S.key(i, i)][0] == 'SingleSite']
-        if singles and n < 3:
+        if singles and n < 4:
             a = singles[case['pick'] % len(singles)]
             new, idx = split_monatomic(base, a, case['f'])
             return base, new, idx, 1.0, 'split-monatomic'
